@@ -64,6 +64,28 @@ def q_profile_cl(f):
     return np.asarray(xy)
 
 
+def _refused(f, **kw):
+    n_ = [n for n in f.parameter_names if n not in f._fitter.fixed_parameters][0]
+    i_ = list(f.parameter_names).index(n_)
+    v_, e_ = float(f.parameter_values[i_]), float(f.parameter_errors[i_]) or 1.0
+    kw = {k_: (v_ + x_[1] * e_ if isinstance(x_, tuple) else x_) for k_, x_ in kw.items()}
+    try:
+        f._fitter.profile(n_, size=5, **kw)
+    except ValueError as e:
+        return "refused"
+    return "accepted"
+
+
+def q_profile_refused_low(f):
+    """a request that has to be refused (lower bound above the fitted value): refused, and the fit is where it was"""
+    return _refused(f, low=("rel", +0.5))
+
+
+def q_profile_refused_cl(f):
+    """a request that is refused only AFTER the lower bound was visited with the live minimizer (one-sided 50 % level -> two-sided level 0)"""
+    return _refused(f, low=("rel", -1.0), cl=0.5)
+
+
 def q_contour(f):
     free = [n for n in f.parameter_names if n not in f._fitter.fixed_parameters]
     c = f._fitter.contour(free[0], free[1], sigma=1.0)
@@ -91,7 +113,7 @@ def q_to_file(f):
 
 QUERIES = {
     "cov": lambda f: np.asarray(f.parameter_cov_mat), "cor": lambda f: np.asarray(f.parameter_cor_mat), "hessian": lambda f: np.asarray(f._fitter.minimizer.hessian),
-    "asym": lambda f: np.asarray(f.asymmetric_parameter_errors), "profile": q_profile, "profile_cl": q_profile_cl, "contour": q_contour,
+    "asym": lambda f: np.asarray(f.asymmetric_parameter_errors), "profile": q_profile, "profile_cl": q_profile_cl, "profile_refused_low": q_profile_refused_low, "profile_refused_cl": q_profile_refused_cl, "contour": q_contour,
     "band": lambda f: np.asarray(f.error_band()) if hasattr(f, "error_band") else None,
     "report": q_report, "result_dict": lambda f: {k: (np.asarray(v).tolist() if isinstance(v, np.ndarray) else v) for k, v in f.get_result_dict().items()},
     "to_file": q_to_file, "read": lambda f: (np.asarray(f.parameter_values).tolist(), float(f.cost_function_value)),
@@ -113,6 +135,7 @@ def gen(tier, seed):
                 if tier == "quick":
                     pairs_here = kind in ("xy", "custom") and setup in ("free", "fixed", "frozen-after-fit")
                     seqs = [s for s in seqs if len(s) == 1 or (pairs_here and s[0] in ("asym", "profile", "profile_cl", "contour"))]
+                seqs = [s for s in seqs if not (len(s) > 1 and any(q_.startswith("profile_refused") for q_ in s)) or (tier == "thorough" or s[0] == "profile_cl")]          # refused requests: alone, and after one answered request
                 for s in seqs:
                     if "band" in s and kind != "xy":
                         continue
@@ -149,6 +172,8 @@ def history(inp):
             a1 = QUERIES[q](f)
         except Exception as e:
             return {"got": f"{q}: {type(e).__name__}: {e}"[:300], "expected": "an answer", "witness_class": f"{tag}:{q}:raises"}
+        if q.startswith("profile_refused") and a1 != "refused":
+            return {"got": a1, "expected": "refused (ValueError)", "witness_class": f"{tag}:{q}:not-refused"}
         v, c, e = np.asarray(f.parameter_values), float(f.cost_function_value), np.asarray(f.parameter_errors)
         mv = np.asarray(f._fitter.minimizer.parameter_values)
         where = q if k == 0 else inp["queries"][k - 1] + "-then-" + q
